@@ -25,6 +25,7 @@ for seed in seeds:
         env = dict(os.environ, VERIF_SEED=str(seed), VERIF_EVID=ev, VERIF_REPLAYS=rp)
         t = time.time()
         p = subprocess.run('./check %s --tier %s' % (pid, tier), shell=True, cwd=V, env=env, stdout=subprocess.PIPE, stderr=subprocess.STDOUT, text=True)
+        open('/tmp/soak_out_%d_%s_%s.log' % (seed, tier, pid), 'w').write(p.stdout)
         v = [l for l in p.stdout.split('\n') if l.startswith('VIOLATION')]
         print('seed %d %s %s rc=%d %6.1fs %s' % (seed, tier, pid, p.returncode, time.time() - t, v[:2]), flush=True)
         bad += p.returncode != 0
